@@ -68,9 +68,18 @@ bool SignalEventImpl::initialize(const std::initializer_list<int> &sigset, Mode 
 
 bool SignalEventImpl::enable()
 {
+    if (is_enabled_)
+        return true;
+
     if (is_inited_) {
         for (int signo : sigset_) {
             if (!wp_loop_->subscribeSignal(signo, this)) {
+                //! 订阅失败，要将已订阅的信号退订，否则本对象销毁后 Loop 中还残留着它的指针
+                for (int subscribed_signo : sigset_) {
+                    if (subscribed_signo == signo)
+                        break;
+                    wp_loop_->unsubscribeSignal(subscribed_signo, this);
+                }
                 return false;
             }
         }
